@@ -105,7 +105,7 @@ void harness_sign(void) {
 #endif
     in.msg_len = MSGLEN;        /* message length class (assigned: a symbolic-length copy into the 4 kB scratch area does not fit in memory) */
     __CPROVER_assume(in.plen <= HDRMAX + BODY + 8 && in.msg_len <= 8 && in.extra_len <= 8);
-    proof = malloc(plen ? plen : 1); __CPROVER_assume(proof != NULL);            /* an output object of EXACTLY *plen bytes */
+    proof = malloc(plen); __CPROVER_assume(proof != NULL);            /* an output object of EXACTLY *plen bytes */
     r = secp256k1_rangeproof_sign_impl(secp256k1_get_hash_context(&ctx), &ctx.ecmult_gen_ctx, proof, &plen, in.minv, &in.commit, in.blind, in.nonce, in.exp, in.min_bits, in.value,
                                        in.nullmsg ? NULL : in.msg, in.nullmsg ? 0 : in.msg_len, in.extra, in.extra_len, &in.gen);
     badargs = in.plen < 65 || in.minv > in.value || in.min_bits > 64 || in.min_bits < 0 || in.exp < -1 || in.exp > 18;
